@@ -91,7 +91,7 @@ CHECKS = {
     },
     "C20": {
         "category": "proof",
-        "text": "PARTIAL. Proved in Coq over Model/InFlight.v (io.rs InFlightBuffers): for every order of pushes, submissions, submission failures, completions and the final drop, a buffer the kernel may still read from is never freed, and only buffers marked in flight are kept alive; tied to the code by driving the real type with drop-tracking tokens (hook H8). The rest of the property -- use-after-free, double free, out-of-bounds access anywhere in the crate's unsafe code, under races with expiry, eviction, flushes, failed writes and shutdown -- cannot be expressed by an executable Gallina model of compiled Rust; it is exercised by re-running the concurrency (C07), race (C08), sequence (C01), fault (C09) and damaged-file (C17) engines under AddressSanitizer, with a self-test showing the instrumentation is live. A sanitizer report is a concrete violation; the absence of one is evidence for the executions explored, not a proof.",
+        "text": "PARTIAL. Proved in Coq over Model/InFlight.v (io.rs InFlightBuffers): for every order of pushes, submissions, submission failures, completions and the final drop, a buffer the kernel may still read from is never freed, and only buffers marked in flight are kept alive; tied to the code by driving the real type with drop-tracking tokens (hook H8). The rest of the property -- use-after-free, double free, out-of-bounds access anywhere in the crate's unsafe code, under races with expiry, eviction, flushes, failed writes and shutdown -- cannot be expressed by an executable Gallina model of compiled Rust; it is exercised by re-running the concurrency (C07), race (C08), sequence (C01), fault (C09) and damaged-file (C17) engines under AddressSanitizer, with a self-test showing the instrumentation is live. A sanitizer report is a concrete violation; the absence of one is evidence for the executions explored, not a proof. FeoxAllocator: Gen/AllocSites.v is regenerated from src/utils/allocator.rs on every run (tools/gen_alloc.py) and it is proved for every size that a block is released by the path that produced it, with the same Layout alignment and exactly the mapped length, the mapping covering the request in whole pages.",
         "note": TRUST + " Memory safety of the epoch-managed ordered index (TreeSlot), AlignedBuffer and the scc/crossbeam dependencies is NOT proved; AddressSanitizer does not instrument the prebuilt standard library. Miri was not used (io_uring and threads with real files are outside what it supports).",
         "design": "DESIGN.md section 5 C20",
     },
